@@ -1,16 +1,45 @@
-"""C07 — Iterators: trace validation of real histories against the Lsm model + theorems over the model."""
-import wlcheck
+"""C07 — iterators give a consistent, ordered, complete view in both directions."""
+import vlib, wlcheck, wl_run, gens_iterstack, gens_block
+from common import Case, lean_stage, run_cases, load_corpus
+from vlib import Check, Rng
 
 PID = 'C07'
 TAGS = set('iter,snapiter,liveiter'.split(','))
-THEOREMS = []
+THEOREMS = [
+    'Lcdb.C07x.merge_is_cursor', 'Lcdb.C07x.merge_no_fault', 'Lcdb.C07x.dbiter_is_map_cursor', 'Lcdb.C07x.dbiter_is_map_cursor_gen',
+    'Lcdb.C07x.dbiter_forward_scan', 'Lcdb.C07x.dbiter_backward_scan', 'Lcdb.C07x.forward_eq_reverse_backward', 'Lcdb.C07x.iter_agrees_get',
+    'Lcdb.C07x.seek_agrees_get', 'Lcdb.C07x.dbiter_over_merge', 'Lcdb.C07x.dbiter_over_db', 'Lcdb.C07x.dbiter_total', 'Lcdb.C07x.visibleMap_strictly_sorted',
+    'Lcdb.blockIter_is_cursor', 'Lcdb.blockIter_seek_helpers', 'Lcdb.seek_helpers_spec',
+]
 IMPORTS = ['LcdbModel.Props.C07']
 TARGETS = ['LcdbModel.Props.C07']
 
 
 def run(tier):
-    return wlcheck.run(PID, tier, TAGS, THEOREMS, IMPORTS, TARGETS)
+    chk = Check(PID, tier)
+    rng = Rng(chk.seed).fork(PID)
+    lean_stage(chk, THEOREMS, IMPORTS, TARGETS + ['tracecheck'])
+    unit = vlib.build_harness('unit', 'asan', exclude=['util/crc32c.c'])
+    big = tier == 'thorough'
+    cases = [Case('corpus', r) for r in load_corpus(PID)]
+    cases += gens_iterstack.gen_iterstack(rng.fork('stack'), 1500 if not big else 40000)
+    cases += gens_block.gen_block_valid(rng.fork('block'), 300 if not big else 8000)
+    chk.rules.append('real merger.c and db_iter.c over real memtables as children (1..6 runs, many versions per user key spread over runs, tombstones above and below values, entries newer '
+                     'than the iterator sequence, three comparators) and real block iterators, with op sequences that are random walks biased to direction changes at every position; '
+                     'every op is compared with the Lean iterator models and with a Python sorted-dict cursor; distinct = distinct (suite, response)')
+    run_cases(chk, cases, unit)
+    n, nops = (20, 45) if not big else (400, 120)
+    chk.rules.append(wlcheck.RULE)
+    wl_run.run_histories(chk, n, nops, TAGS, 'histories')
+    chk.assumptions += ['two_level_iterator.c is exercised through whole tables and whole databases; its own model is part of the table slice']
+    return chk.finish()
 
 
 def replay(path):
+    import json
+    rp = json.load(open(path))
+    if 'request' in rp:
+        unit = vlib.build_harness('unit', 'asan', exclude=['util/crc32c.c'])
+        print(vlib.serve(unit, [rp['request']], vlib.asan_env())[0])
+        return 0
     return wlcheck.replay(PID, path)
